@@ -4,6 +4,7 @@ go 1.24.0
 
 require (
 	github.com/bitcoin-sv/block-headers-service v0.0.0
+	github.com/mattn/go-sqlite3 v1.14.24
 	golang.org/x/tools v0.29.0
 )
 
